@@ -454,7 +454,12 @@ pub mod details {
                 }
             };
 
-            storage.get().reserve_port(port_to_register.value(), msg)?;
+            if let Err(e) = storage.get().reserve_port(port_to_register.value(), msg) {
+                // the creator lost the race for its port: whoever is attached, or has marked
+                // the connection for destruction, is responsible for removing the storage
+                storage.release_ownership();
+                return Err(e);
+            }
 
             if storage.has_ownership() {
                 storage.release_ownership();
